@@ -480,6 +480,45 @@ let cmd_cfg (arg : string) : string =
      | Refused -> "REFUSED")
   | _ -> failwith "cfg args"
 
+(* ---------- client ---------- *)
+let parse_assoc (s : string) : (string * bool) list =
+  if s = "-" then [] else
+    List.map (fun kv -> let i = String.rindex kv ':' in
+               (String.sub kv 0 i, String.sub kv (i + 1) (String.length kv - i - 1) = "1"))
+      (split_on ',' s)
+
+(* client <ver> <pk|-> <nonce> <request> <dgram> <points|-> <verifies|->
+   first pass ('-' '-'): Ed25519 answers assumed true and the queries recorded;
+   second pass: answers looked up (default false) *)
+let cmd_client (arg : string) : string =
+  match String.split_on_char ' ' (String.trim arg) with
+  | [v; pk; nonce; request; dgram; points; verifies] ->
+    let recording = (points = "-" && verifies = "-") in
+    let pts = parse_assoc points and vfs = parse_assoc verifies in
+    let queries = ref [] in
+    let edp pkb = if recording then true else (try List.assoc (hex_of_bytes pkb) pts with Not_found -> false) in
+    let edv pkb m sg =
+      let key = hex_of_bytes pkb ^ "." ^ hex_of_bytes m ^ "." ^ hex_of_bytes sg in
+      queries := key :: !queries;
+      if recording then true else (try List.assoc key vfs with Not_found -> false) in
+    let pko = if pk = "-" then None else Some (bytes_of_hex pk) in
+    let r = client_handle sha512 edv edp (version_of v) pko (bytes_of_hex nonce) (bytes_of_hex request) (bytes_of_hex dgram) in
+    let q = String.concat "," (List.rev !queries) in
+    (match r with
+     | Ok o -> Printf.sprintf "OK verified=%d secs=%s nsecs=%s radius=%s index=%s Q=%s" (if o.o_verified then 1 else 0)
+                 (string_of_n o.o_secs) (string_of_n o.o_nsecs) (string_of_n o.o_radius) (string_of_n o.o_index) q
+     | Err e -> "ERR " ^ render_err e ^ " Q=" ^ q
+     | Panic n -> Printf.sprintf "PANIC site=%d Q=%s" (int_of_nat n) q)
+  | _ -> failwith "client args"
+
+(* mkreq <ver> <nonce> <pk|-> *)
+let cmd_mkreq (arg : string) : string =
+  match String.split_on_char ' ' (String.trim arg) with
+  | [v; nonce; pk] ->
+    let pko = if pk = "-" then None else Some (bytes_of_hex pk) in
+    render_out hex_of_bytes (make_request sha512 (version_of v) (bytes_of_hex nonce) pko)
+  | _ -> failwith "mkreq args"
+
 let model_srv : server option ref = ref None
 
 let stats_totals (evs : sev list) : string =
@@ -555,6 +594,8 @@ let dispatch (line : string) : string =
   | "srep" -> cmd_srep rest
   | "serve" -> cmd_serve rest
   | "signer" -> cmd_signer rest
+  | "client" -> cmd_client rest
+  | "mkreq" -> cmd_mkreq rest
   | "cfg" -> cmd_cfg rest
   | "ltk" -> cmd_ltk rest
   | "cert" -> cmd_cert rest
